@@ -737,6 +737,63 @@ func (m *bsMachine) ruleRaceWake(t *rapid.T) {
 	m.settle()
 }
 
+// ruleDiffDuringGet: somebody asks for Diff(c) while c's Get is blocked at the end of the buffer, then a value is put.
+// The Diff may wait for the Get (it needs the consumer) but must not stand in the way of the Put that ends the wait:
+// at quiescence the Put has returned, the Get has its value and the Diff has answered. (A wedge here parks goroutines
+// on mutexes, which never lets the bubble go quiet: the stall watchdog reports it.)
+func (m *bsMachine) ruleDiffDuringGet(t *rapid.T) {
+	c := m.pickCons("diffCons", func(c *bsCons) bool {
+		return c.getOp != nil && c.open && c.pos() >= len(m.G) && c.pos() >= m.base
+	})
+	if c == nil || m.closed || m.cleaner == "fixed" || m.cleaner == "script" {
+		t.Skip("no blocked get")
+	}
+	for _, o := range m.cons {
+		if o != c && o.getOp != nil {
+			t.Skip("another get is pending")
+		}
+	}
+	k := rapid.IntRange(1, 3).Draw(t, "diffPutK")
+	vals := m.nextTokens(k)
+	args := make([]any, k)
+	for i, v := range vals {
+		args[i] = bsPayload(v)
+	}
+	b, cc := m.b, c.c
+	type diffRes struct {
+		d  int
+		ok bool
+	}
+	diffOp := vkit.Launch("Buffer.Diff", func() any { d, ok := b.Diff(cc); return diffRes{d, ok} })
+	bsSpin()
+	putOp := vkit.Launch("Buffer.Put", func() any { return b.Put(context.Background(), args...) })
+	m.G = append(m.G, vals...)
+	m.changed()
+	m.wokeBlockedGet = true
+	synctest.Wait()
+	m.tr("diffDuringGet(c%d,put%v)", c.id, vals)
+	if !putOp.Finished() || putOp.Panic != nil || putOp.Res != nil {
+		m.fail("C05+C01/put-blocked", "Put issued while a Get of c%d was blocked and a Diff of c%d was waiting: finished=%v result=%v panic=%v", c.id, c.id, putOp.Finished(), putOp.Res, putOp.Panic)
+	}
+	op := c.getOp
+	if !op.Finished() {
+		m.fail("C05/get-lost-wakeup", "Get(c%d) still blocked at quiescence although a value was put (a Diff of the same consumer was waiting meanwhile)", c.id)
+	}
+	if op.Panic != nil {
+		m.fail("C01+C02+C03+C05+C12/get-panic", "Get(c%d) panicked: %v", c.id, op.Panic)
+	}
+	if !diffOp.Finished() || diffOp.Panic != nil {
+		m.fail("C05+C03/diff-stuck", "Diff(c%d) issued while its Get was blocked has not answered at quiescence (finished=%v panic=%v)", c.id, diffOp.Finished(), diffOp.Panic)
+	}
+	if dr := diffOp.Res.(diffRes); !dr.ok || dr.d < 0 || dr.d > k {
+		m.fail("C03/diff-value", "Diff(c%d) issued around a Put of %d values onto a drained consumer answered (%d,%v)", c.id, k, dr.d, dr.ok)
+	}
+	r := op.Res.(bsGetRes)
+	m.finishGet(c, m.G[c.pos()], r.err != nil)
+	m.simple = false
+	m.settle()
+}
+
 func (m *bsMachine) ruleCommit(t *rapid.T) {
 	c := m.pickCons("commitCons", func(c *bsCons) bool { return !c.busy() })
 	if c == nil {
@@ -1400,6 +1457,7 @@ func bsRun(t *rapid.T, st *vkit.Stats, prof string) {
 	add("get", w["get"], m.ruleGet)
 	add("cancelGet", w["cancelGet"], m.ruleCancelGet)
 	add("raceWake", w["raceWake"], m.ruleRaceWake)
+	add("diffDuringGet", w["raceWake"], m.ruleDiffDuringGet)
 	add("commit", w["commit"], m.ruleCommit)
 	add("rollback", w["rollback"], m.ruleRollback)
 	add("closeConsumer", w["closeConsumer"], m.ruleCloseConsumer)
